@@ -89,7 +89,7 @@ def run(ctx):
     rng = random.Random(ctx["seed"])
     n = 400 if ctx["tier"] == "quick" else 6000
     cases = list(CORPUS) + [gen_world_case(rng, "g%d" % i, PROFILE_LOCAL) for i in range(n)]
-    binary = build_harness("pkg/gossip")
+    binary = build_harness("pkg/gossip", dirs=["gossip"])
     outs = run_world(binary, ctx["wd"], cases)
     violations, known = [], []
     # monitor on the implementation
@@ -141,7 +141,7 @@ def run(ctx):
 def replay(path, wd):
     obj = json.load(open(path))
     case = obj["case"]
-    binary = build_harness("pkg/gossip")
+    binary = build_harness("pkg/gossip", dirs=["gossip"])
     out = run_world(binary, wd, [case], tag="replay")[0]
     print(json.dumps({"implementation": out, "monitor": monitor(case, out)}, indent=1))
     dis = correspondence(ID, wd, [case], [out], tag="replay")
